@@ -280,8 +280,9 @@ namespace sqf::parser::sqf
                     while (true)
                     {
                         if (is_match<'\''>(iter) && is_match<'\''>(iter + 1))
-                        {
+                        { // (an escaped quote takes two columns)
                             ++iter;
+                            m_column++;
                         }
                         else if (is_match<'\''>(iter))
                         {
@@ -318,8 +319,9 @@ namespace sqf::parser::sqf
                     while (true)
                     {
                         if (is_match<'"'>(iter) && is_match<'"'>(iter + 1))
-                        {
+                        { // (an escaped quote takes two columns)
                             ++iter;
+                            m_column++;
                         }
                         else if (is_match<'"'>(iter))
                         {
